@@ -163,6 +163,7 @@ type c11state struct {
 	lateReg       int64 // a callback and a handler were registered at some moment of the run
 	lateDisc      int
 	lateSubClosed bool
+	lateSubs, lateSubsClosed int // subscriptions granted after everything had settled
 }
 
 func (c11) Run(c *core.Case, env *core.Env) {
@@ -301,6 +302,27 @@ func (c11) Run(c *core.Case, env *core.Env) {
 		h = env.Invoke(9, "late-echo", tokOf(tok).Key())
 		ret, err := p.Echo(tok)
 		env.Return(h, tokOf(ret).String(), err)
+		// ... and a late subscription to the signal the scenario subscribed
+		// to (or tried to): it returns, with an error if the connection is
+		// lost
+		h = env.Invoke(9, "subscribe-late", "tick")
+		_, lch, err := p.SubscribeTick()
+		env.Return(h, "", err)
+		if err == nil {
+			// (it may be granted without a round trip, as a further local
+			// subscriber of a signal: its channel is then closed at once if
+			// the connection is lost)
+			st.mu.Lock()
+			st.lateSubs++
+			st.mu.Unlock()
+			go func() {
+				for range lch {
+				}
+				st.mu.Lock()
+				st.lateSubsClosed++
+				st.mu.Unlock()
+			}()
+		}
 	} else {
 		h = env.Invoke(9, "late-raw", "")
 		_, err := cl.Call(nil, w.ServiceID, 1, ActNoarg, nil)
@@ -653,6 +675,9 @@ func (c11) Check(c *core.Case, env *core.Env, res zzsim.Result, v *core.Verdict)
 		}
 		if st.subsClosed != st.subs {
 			bad("subscription-not-closed", "%s: %d of %d subscription channels were closed", where, st.subsClosed, st.subs)
+		}
+		if st.lateSubsClosed != st.lateSubs {
+			bad("subscription-not-closed/granted-after-the-loss", "%s: a subscription granted after the connection was lost has its channel still open", where)
 		}
 		// whenever they were registered - before, after or while the
 		// connection was being lost - a callback runs once and a
